@@ -264,6 +264,11 @@ def expr_unit(ctx, unit):
         mode = rng.choice(MODES)
         xk = tuple(rng.sample(list(canon), min(len(canon), rng.randint(1, 3))))
         rk = gen.random_subset(rng, canon, 3, 1) if rng.random() < 0.6 else tuple(k for k in canon if bin(k).count('1') % 2 == 0)[:4]
+        if len(rk) >= 2 and rng.random() < 0.4 and not cfg.get('opts', {}).get('graded'):
+            # the other input stores its blades in a non-canonical order (x already does: rng.sample)
+            rk = gen.permuted(rng, rk)
+            if tuple(rk) != tuple(sorted(rk, key=canon.index)):
+                ctx.count('other_input_in_noncanonical_key_order')
         if cfg.get('opts', {}).get('graded'):
             # graded mode: operands hold complete grades
             xk = tuple(alg.indices_for_grades[(rng.randint(0, alg.d),)])
